@@ -868,6 +868,15 @@ impl<'a> World<'a> {
                     ));
                 }
             }
+            RephPlacement::Either(i, j) => {
+                self.stats.bump("oracle.reph_placement_judged_two_part_sign");
+                if !points.contains(&i) && !points.contains(&j) {
+                    return Err(Stop::Violation(
+                        "reph-placement".into(),
+                        format!("after {}: text {:?} (final syllable with a vowel sign typed as its two parts) + reph must put the reph before the final conjunct or at the end, but shows {:?}", what, p, q),
+                    ));
+                }
+            }
             RephPlacement::NotJudged(why) => {
                 self.stats.bump(&format!("unspecified.reph placement: {}", why));
             }
